@@ -1801,6 +1801,7 @@ def sym_minmax(which, args):
     """Opaque but canonical max/min atom over algebraic arguments."""
     keys = sorted(repr(a) for a in args)
     name = '%s(%s)' % (which, ', '.join(keys))
+    ndarr.ATOM_ARGS[name] = (which, tuple(args))
     if any(isinstance(a, Poly) and not a.is_real() for a in args):
         from . import algebra
         algebra.COMPLEX_ATOMS.add(name)          # numpy orders complex numbers lexicographically: the result is complex
